@@ -26,7 +26,7 @@ func sockFDs() int {
 }
 
 func canBind(kind string, port int) bool {
-	if kind == "udp" || kind == "quic" {
+	if kind == "udp" || kind == "quic" || kind == "udpth" {
 		c, err := net.ListenUDP("udp", &net.UDPAddr{IP: net.IPv4(127, 0, 0, 1), Port: port})
 		if err != nil {
 			return false
@@ -143,12 +143,13 @@ func modeC18() {
 	}
 	// whole router: all listener kinds, a few queries, then close
 	base := sockFDs()
-	in, err := newInst("c18-all", instOpts{listeners: allListeners, upstreams: map[string]string{"u1": "udp", "u2": "tcp", "u3": "tcp+pipeline"},
+	all18 := append(append([]string{}, allListeners...), "udpth") // + a UDP listener with three threads (sockets)
+	in, err := newInst("c18-all", instOpts{listeners: all18, upstreams: map[string]string{"u1": "udp", "u2": "tcp", "u3": "tcp+pipeline"},
 		rules: []ruleSpec{{Set: "", Forward: "u1"}}, cacheMem: 1 << 20, metrics: true})
 	if err != nil {
 		panic(err)
 	}
-	for _, lst := range allListeners {
+	for _, lst := range all18 {
 		in.send(lst, "", mkq(uniq()+".r0t60d0.z1.test."), 3*time.Second, nil)
 	}
 	t0 := time.Now()
@@ -156,7 +157,7 @@ func modeC18() {
 	dur := int(time.Since(t0) / time.Millisecond)
 	// no listening socket is left when Close has returned: every address can be bound again at once
 	nowBound := []string{}
-	for _, lst := range append([]string{"metrics"}, allListeners...) {
+	for _, lst := range append([]string{"metrics"}, all18...) {
 		if !canBind(lst, in.ports[lst]) {
 			nowBound = append(nowBound, lst)
 		}
@@ -169,7 +170,7 @@ func modeC18() {
 	time.Sleep(600 * time.Millisecond)
 	rebound := true
 	notRebound := []string{}
-	for _, lst := range append([]string{"metrics"}, allListeners...) {
+	for _, lst := range append([]string{"metrics"}, all18...) {
 		if !canBind(lst, in.ports[lst]) {
 			rebound = false
 			notRebound = append(notRebound, lst)
